@@ -179,6 +179,8 @@ def o_chunked(case):
         cls.add("timeouts-between-receives")
     if case.get("longdist"):
         cls.add("long-distance-back-references")
+    if case.get("wirechunk", 0) >= 0x10000:
+        cls.add("chunk-of-64KiB-or-more-on-the-wire")
     if len(expected) > 1024 * 1024:
         cls.add("chunk-decoding-to-more-than-1MiB")
     if case["enc"] != "none" and case.get("wbits", 15) != 15:
@@ -288,8 +290,15 @@ def s_chunked(draw, tier):
 
 
 def e_big(tier, shard, nshards):
-    """one compressed chunk of a few KiB on the wire that decodes to more than 1 MiB (thorough: 5 MiB), then a small one"""
+    """one compressed chunk of a few KiB on the wire that decodes to more than 1 MiB (thorough: 5 MiB), then a small one;
+    and uncompressed chunks whose size line has five and six hex digits (64 KiB .. 1 MiB on the wire)"""
     k = 0
+    for size in ([0x10000, 0x12345] if tier == "quick" else [0xFFFF, 0x10000, 0x12345, 0x100000]):
+        k += 1
+        if k % nshards != shard:
+            continue
+        body = bytes((i * 7 + (i >> 8)) & 0xFF for i in range(size))
+        yield {"chunks": [b"head".hex(), body.hex(), b"tail".hex()], "enc": "none", "hexcase": [k % 2], "terminator": True, "mode": "generated", "cuts": [3, 5000, 70000], "bufsize": 4096, "gaps": [], "wirechunk": size}
     for enc in ("gzip", "compress", "deflate"):
         for size in ([1200 * 1024] if tier == "quick" else [1200 * 1024, 5 * 1024 * 1024]):
             k += 1
@@ -369,7 +378,7 @@ SUBS = [
         examples=(150, 3000),
         exhaustive=True,
         rule="partitions enumerated completely for short streams (all compositions for n <= 15; all 1- and 2-cut partitions for n <= 120), generated beyond; non-trivial = cut inside size line / chunk data / terminating CRLF",
-        need={"cut-in-size-line": 1, "cut-in-chunk-data": 1, "cut-inside-terminating-crlf": 1, "cut-between-data-and-crlf": 1, "enc-gzip": 1, "enc-deflate": 1, "enc-compress": 1, "all_partitions": 1, "small-compression-window": 1, "layered-compression": 1, "timeouts-between-receives": 1, "chunk-decoding-to-more-than-1MiB": 1},
+        need={"cut-in-size-line": 1, "cut-in-chunk-data": 1, "cut-inside-terminating-crlf": 1, "cut-between-data-and-crlf": 1, "enc-gzip": 1, "enc-deflate": 1, "enc-compress": 1, "all_partitions": 1, "small-compression-window": 1, "layered-compression": 1, "timeouts-between-receives": 1, "chunk-decoding-to-more-than-1MiB": 1, "chunk-of-64KiB-or-more-on-the-wire": 1},
         sample=_short,
     ),
     Sub("good_chunks_around_undecodable_chunk", o_after_bad, strategy=s_after_bad, examples=(40, 1200), rule="at least one well-formed compressed chunk follows the undecodable one", need={"good-chunks-after": 1, "good-chunks-before": 1}, sample=_short),
